@@ -12,8 +12,8 @@ B, N = (4, 5) if a.tier == "quick" else (7, 9)
 rep = Report("C09", f"constraints with bounds 0..{B} (plus negative/inconsistent constructor arguments) x n=0..{N} solutions, the() for n=0..{N}; exhaustive", a.out)
 
 
-def run_query(n, c, use_the=False):
-    x = let(int, list(range(1, n + 1)))
+def run_query(n, c, use_the=False, base=1):
+    x = let(int, list(range(base, n + base)))
     q = the(entity(x)) if use_the else an(entity(x), quantification=c)
     got = []
     if use_the:
@@ -60,6 +60,37 @@ for n in range(N + 1):
     rep.case(("the", n))
     if not ok:
         rep.fail("the", f"the() with n={n}: {st} {r!r}", {"n": n})
+# falsy solutions are solutions: the single solution 0 / "" must be returned by the()
+for dom, want in (([0], 0), ([""], ""), ([[]], [])):
+    st, r = guarded(lambda: the(entity(let(type(want), dom))).evaluate())
+    rep.case(("the-falsy", repr(want)))
+    if not (st == "ok" and r == want):
+        rep.fail("the::falsy-solution", f"the() over the one-element domain {dom!r}: {st} {r!r}", {"domain": repr(dom)})
+# pattern-matching descriptions carry the constraint too
+from dataclasses import dataclass
+
+
+from krrood.entity_query_language.predicate import Symbol
+
+
+@dataclass(eq=False)
+class Item(Symbol):
+    k: int
+
+
+from krrood.entity_query_language.match import entity_matching
+items = [Item(1), Item(1), Item(2)]
+for name, c, lower, upper in cons[:1 + 3 * 3]:
+    got, exc = [], None
+    try:
+        for v in an(entity_matching(Item, items)(k=1), quantification=c).evaluate():
+            got.append(v)
+    except Exception as e:
+        exc = e
+    ey, eexc = expect(2, lower, upper)
+    rep.case(("match", name))
+    if not (len(got) == ey and ((exc is None and eexc is None) or (eexc is not None and type(exc) is eexc))):
+        rep.fail("an::match-description", f"an(entity_matching(...)(k=1), {name}) with 2 matches: yielded {len(got)} raised {type(exc).__name__ if exc else None}", {"constraint": name})
 for cls in (Exactly, AtLeast, AtMost):
     for v in (-3, -1, 0, 1):
         st, r = guarded(lambda: cls(v))
